@@ -67,15 +67,18 @@ func (r *ServiceReconciler) reconcileService(ctx context.Context, req ctrl.Reque
 
 	var service *v1.Service
 
-	if !r.initialLoadPerformed {
-		level.Debug(r.Logger).Log("controller", "ServiceReconciler", "message", "filtered service, still waiting for the initial load to be performed")
-		return ctrl.Result{}, nil
-	}
-
 	service, err := r.serviceFor(ctx, req.NamespacedName)
 	if err != nil {
 		level.Error(r.Logger).Log("controller", "ServiceReconciler", "message", "failed to get service", "service", req.NamespacedName, "error", err)
 		return ctrl.Result{}, err
+	}
+
+	// Deletions are never filtered: the initial load only sees the services
+	// that still exist, so a service deleted while the initial load is being
+	// retried would otherwise keep whatever a previous attempt gave it.
+	if !r.initialLoadPerformed && service != nil {
+		level.Debug(r.Logger).Log("controller", "ServiceReconciler", "message", "filtered service, still waiting for the initial load to be performed")
+		return ctrl.Result{}, nil
 	}
 
 	if filterByLoadBalancerClass(service, r.LoadBalancerClass) {
